@@ -57,58 +57,6 @@ Proof.
 Qed.
 
 (* ====================================================================== Part 2: the loop, field by field *)
-Definition kfield := (pystr * (kshape * list node))%type.
-
-Fixpoint seq_visit (v : visitfn) (l : list node) (s : vst) : option (vst * option (list result)) :=
-  match l with
-  | [] => Some (s, Some [])
-  | x :: r =>
-    do sr <- v x s;
-    match snd sr with
-    | RErr => Some (fst sr, None)
-    | rx => do sr2 <- seq_visit v r (fst sr); Some (fst sr2, option_map (cons rx) (snd sr2))
-    end
-  end.
-Fixpoint fields_visit (v : visitfn) (ks : list kfield) (s : vst) : option (vst * option (list (list result))) :=
-  match ks with
-  | [] => Some (s, Some [])
-  | k :: r =>
-    do sr <- seq_visit v (snd (snd k)) s;
-    match snd sr with
-    | None => Some (fst sr, None)
-    | Some rs => do sr2 <- fields_visit v r (fst sr); Some (fst sr2, option_map (cons rs) (snd sr2))
-    end
-  end.
-
-Definition not_same (x : node) (r : result) : bool :=
-  match r with RNode y => negb (Nat.eqb (addr y) (addr x)) | _ => true end.
-Definition lmarked (l : list node) (rs : list result) : bool :=
-  existsb (fun p => not_same (fst p) (snd p)) (combine l rs).
-Definition fmarked (k : kfield) (rs : list result) : bool := lmarked (snd (snd k)) rs.
-Definition rkeep (rs : list result) : list node := flat_map (fun r => match r with RNode n => [n] | _ => [] end) rs.
-Definition vnew (sh : kshape) (rs : list result) : kshape * list node :=
-  match sh with
-  | ShMany => (ShMany, rkeep rs)
-  | ShOne => match rkeep rs with [] => (ShNone, []) | l => (ShOne, l) end
-  | ShNone => (ShNone, [])
-  end.
-Definition fnew (k : kfield) (rs : list result) : kfield := (fst k, vnew (fst (snd k)) rs).
-Definition rebuild (ks : list kfield) (rss : list (list result)) : list kfield :=
-  map (fun p => if fmarked (fst p) (snd p) then fnew (fst p) (snd p) else fst p) (combine ks rss).
-Definition any_marked (ks : list kfield) (rss : list (list result)) : bool :=
-  existsb (fun p => fmarked (fst p) (snd p)) (combine ks rss).
-
-(* generic_visit, field by field *)
-Definition gv_tr (v : visitfn) (n : node) (s : vst) : option (vst * result) :=
-  do r <- fields_visit v (nkids n) s;
-  match snd r with
-  | None => Some (fst r, RErr)
-  | Some rss =>
-    if any_marked (nkids n) rss
-    then Some (bump (fst r), RNode (Node (next (fst r)) (cls n) (norigin n) (nprops n) (rebuild (nkids n) rss)))
-    else Some (fst r, RNode n)
-  end.
-
 (* ---- dictionary facts ---- *)
 Lemma assoc_app_last {A} k (d : list (pystr * A)) x :
   ~ In k (map fst d) -> assoc k (d ++ [(k, x)]) = Some x.
@@ -545,19 +493,18 @@ Section Inv.
     (forall n', r = RNode n' -> prov a b n') /\
     (coherent U -> below a U -> sres_of r = rw x) /\
     (below a U -> chd x = true -> not_same x r = true) /\
-    (generic_like ct strict ms (cls x) = true -> chd x = true -> forall n', r = RNode n' -> a <= addr n' < b).
+    (below a U -> generic_like ct strict ms (cls x) = true -> chd x = true -> forall n', r = RNode n' -> a <= addr n' < b).
 
   Lemma below_mono a a' : a' <= a -> below a' U -> below a U.
   Proof. intros Hle Hb x Hx. specialize (Hb x Hx). lia. Qed.
   Lemma Inv_mono x a b r a' b' : Inv x a b r -> a' <= a -> b <= b' -> Inv x a' b' r.
   Proof.
-    intros (H1 & H2 & H3 & H4 & H5) Ha Hb. repeat split.
-    - lia.
+    intros (H1 & H2 & H3 & H4 & H5) Ha Hb. split; [lia|]. split; [|split; [|split]].
     - intros n' E y Hy. destruct (H2 n' E y Hy); auto. right. lia.
     - intros Hc Hbl. apply H3; auto. eapply below_mono; eauto.
     - intros Hbl. apply H4. eapply below_mono; eauto.
-    - specialize (H5 H H0 n' H6). lia.
-    - specialize (H5 H H0 n' H6). lia.
+    - intros Hbl Hg Hch n' E. assert (Hbl' : below a U) by (eapply below_mono; eauto).
+      specialize (H5 Hbl' Hg Hch n' E). lia.
   Qed.
 
   Definition KInv (a b : nat) (x : node) (r : result) : Prop := Inv x a b r /\ r <> RErr.
@@ -635,6 +582,15 @@ Section Inv.
   Definition rwk (k : kfield) : pystr * (kshape * list sres) := (fst k, (fst (snd k), map rw (snd (snd k)))).
   Definition frw (k : pystr * (kshape * list sres)) : kfield := (fst k, field_rw (fst (snd k)) (snd (snd k))).
 
+  Definition any_err (l : list (pystr * (kshape * list sres))) : bool :=
+    existsb (fun k => existsb is_serr (snd (snd k))) l.
+  Lemma rebuilt_of_eq n :
+    rebuilt_of n = if any_err (map rwk (nkids n)) then SErr
+                   else SNode (Node 0 (cls n) (norigin n) (nprops n) (map frw (map rwk (nkids n)))).
+  Proof. reflexivity. Qed.
+  Lemma strip_eq n : strip n = Node 0 (cls n) (norigin n) (nprops n) (map strip_field (nkids n)).
+  Proof. destruct n; reflexivity. Qed.
+
   Lemma keep_sres rs : keep (map sres_of rs) = map strip (rkeep rs).
   Proof. induction rs as [|[n| |] rs IH]; simpl; auto. f_equal. auto. Qed.
 
@@ -672,7 +628,7 @@ Section Inv.
   Proof.
     intros Hc Hb F. induction F as [|x r l rs [Hi Hne] F [IH1 IH2]]; simpl; auto.
     destruct Hi as (_ & _ & H3 & _). specialize (H3 Hc Hb). rewrite IH2, <- H3, IH1. split; auto.
-    rewrite <- H3. destruct r; simpl; auto. exfalso; apply Hne; reflexivity.
+    destruct r; simpl; auto. exfalso; apply Hne; reflexivity.
   Qed.
 
   Lemma field_content a b nm sh l rs :
@@ -684,13 +640,12 @@ Section Inv.
     intros Hc Hb HU Hok F. destruct (results_rw a b l rs Hc Hb F) as [Erw Eerr]. split; auto.
     unfold frw, rwk, fmarked. cbn [fst snd]. rewrite Erw.
     destruct (lmarked l rs) eqn:Em.
-    - unfold strip_field, fnew, vnew. cbn [fst snd]. f_equal. unfold field_rw. rewrite keep_sres.
-      destruct sh; auto. destruct (rkeep rs); reflexivity.
+    - unfold strip_field, fnew, vnew. cbn [fst snd]. f_equal.
+      destruct sh; cbn [field_rw]; rewrite ?keep_sres; auto. destruct (rkeep rs); reflexivity.
     - rewrite (unmarked_results a b l rs Hc Hb HU F Em).
-      unfold strip_field. cbn [fst snd]. f_equal. rewrite keep_sres.
+      unfold strip_field. cbn [fst snd]. f_equal.
       assert (Ek : rkeep (map RNode l) = l) by (clear; induction l; simpl; f_equal; auto).
-      unfold field_rw. rewrite Ek.
-      destruct sh; simpl in Hok.
+      destruct sh; cbn [field_rw]; rewrite ?keep_sres, ?Ek; simpl in Hok.
       + destruct l; [reflexivity|discriminate].
       + destruct l as [|x [|]]; try discriminate. reflexivity.
       + reflexivity.
@@ -730,9 +685,9 @@ Section Inv.
     forallb (fun k : kfield => shape_len_ok (snd k)) ks = true ->
     Forall2 (FInv a b) ks rss ->
     map strip_field (rebuild ks rss) = map frw (map rwk ks)
-    /\ existsb (fun k : pystr * (kshape * list sres) => existsb is_serr (snd (snd k))) (map rwk ks) = false.
+    /\ any_err (map rwk ks) = false.
   Proof.
-    intros Hc Hb HU Hok F. induction F as [|k rs ks rss Fk F IH]; [simpl; auto|].
+    unfold any_err. intros Hc Hb HU Hok F. induction F as [|k rs ks rss Fk F IH]; [simpl; auto|].
     simpl in Hok. apply andb_prop in Hok as [Hok1 Hok2].
     destruct IH as [IH1 IH2]; auto. { intros k0 x0 Hk0. apply HU. right; auto. }
     destruct k as [nm [sh l]].
@@ -765,13 +720,11 @@ Section Inv.
   Lemma rebuilt_err n k x :
     In k (nkids n) -> In x (snd (snd k)) -> rw x = SErr -> rebuilt_of n = SErr.
   Proof.
-    intros Hk Hx E. unfold rebuilt_of.
-    assert (H : existsb (fun k : pystr * (kshape * list sres) => existsb is_serr (snd (snd k)))
-                        (map (fun k : kfield => (fst k, (fst (snd k), map rw (snd (snd k))))) (nkids n)) = true).
-    { apply existsb_exists. exists (rwk k). split; [apply in_map_iff; exists k; auto|].
-      unfold rwk. cbn [snd]. apply existsb_exists. exists SErr. split; auto.
-      apply in_map_iff. exists x. auto. }
-    rewrite H. reflexivity.
+    intros Hk Hx E. rewrite rebuilt_of_eq.
+    replace (any_err (map rwk (nkids n))) with true; [reflexivity|symmetry].
+    apply existsb_exists. exists (rwk k). split; [apply in_map_iff; exists k; auto|].
+    unfold rwk. cbn [snd]. apply existsb_exists. exists SErr. split; auto.
+    apply in_map_iff. exists x. auto.
   Qed.
 
   (* ---- generic_visit ---- *)
@@ -802,23 +755,136 @@ Section Inv.
           -- right. simpl. lia.
           -- cbn [nkids] in Hk'. destruct (rebuild_prov _ _ _ _ _ _ _ HkU Ho Hk' Hx Hy); auto. right. lia.
         * intros Hc Hb. destruct (rebuild_content _ _ _ _ Hc Hb HkU Hsh Ho) as [E1 E2].
-          unfold rebuilt_of. fold rwk. change (fun k : pystr * (kshape * list node) => (fst k, (fst (snd k), map rw (snd (snd k))))) with rwk.
-          rewrite E2. simpl. fold strip_field. change (fun k : pystr * (kshape * list node) => (fst k, (fst (snd k), map strip (snd (snd k))))) with strip_field.
-          rewrite E1. reflexivity.
+          rewrite rebuilt_of_eq, E2. unfold sres_of. rewrite strip_eq. cbn [cls norigin nprops nkids]. rewrite E1. reflexivity.
         * injection H1 as <-. simpl. lia.
         * injection H1 as <-. simpl. lia.
       + repeat split; try lia; try discriminate.
         * intros n' [= <-] y Hy. left. eapply U_closed; eauto.
         * intros Hc Hb. destruct (rebuild_content _ _ _ _ Hc Hb HkU Hsh Ho) as [E1 E2].
           rewrite (rebuild_unmarked _ _ Hlen Am) in E1.
-          unfold rebuilt_of. change (fun k : pystr * (kshape * list node) => (fst k, (fst (snd k), map rw (snd (snd k))))) with rwk.
-          rewrite E2. simpl. destruct n as [a c o ps ks]. simpl.
-          change (fun k : pystr * (kshape * list node) => (fst k, (fst (snd k), map strip (snd (snd k))))) with strip_field.
-          cbn [nkids] in E1. rewrite E1. reflexivity.
+          rewrite rebuilt_of_eq, E2. unfold sres_of. rewrite strip_eq, E1. reflexivity.
         * pose proof (any_marked_changed _ _ _ _ H0 Ho H). congruence.
         * pose proof (any_marked_changed _ _ _ _ H0 Ho H). congruence.
     - injection H as <- <-. repeat split; try lia; try discriminate.
       intros Hc Hb. destruct Ho as (k & x & Hk & Hx & Hi). simpl.
       symmetry. eapply rebuilt_err; eauto. destruct Hi as (_ & _ & H3 & _). symmetry. apply H3; auto.
+  Qed.
+
+  (* ---- visit ---- *)
+  Lemma wf_tree_root n :
+    wf_tree ct n = true ->
+    root_ok ct n = true /\ forall k x, In k (nkids n) -> In x (snd (snd k)) -> wf_tree ct x = true.
+  Proof.
+    destruct n as [a c o ps ks]. cbn [wf_tree]. intros H. apply andb_prop in H as [H H3].
+    rewrite forallb_forall in H3. split.
+    - unfold root_ok. cbn [nkids cls]. rewrite H. simpl. apply forallb_forall. intros k Hk.
+      specialize (H3 k Hk). apply andb_prop in H3 as [H3 _]. exact H3.
+    - cbn [nkids]. intros k x Hk Hx. specialize (H3 k Hk). apply andb_prop in H3 as [_ H3].
+      rewrite forallb_forall in H3. auto.
+  Qed.
+
+  Lemma set_prop_strip a n f v :
+    match set_prop ct a n f v with
+    | Some n' => set_prop ct 0 (strip n) f v = Some (strip n') /\ addr n' = a /\ nkids n' = nkids n
+    | None => set_prop ct 0 (strip n) f v = None
+    end.
+  Proof.
+    destruct n as [a0 c o ps ks]. unfold set_prop. cbn [cls strip].
+    destruct (find (fun d => pystr_eqb (fd_name d) f) (prop_fields ct c)) as [d|]; auto.
+    destruct (fd_init d); auto. unfold dc_replace. cbn [cls norigin nprops nkids strip addr].
+    rewrite !upd_nil. auto.
+  Qed.
+
+  Lemma subterms_same_kids n' m y : nkids n' = nkids m -> In y (subterms n') -> y = n' \/ In y (subterms m).
+  Proof.
+    intros E Hy. apply subterms_cons in Hy as [->|H]; auto. right. apply subterms_cons. right. rewrite <- E. exact H.
+  Qed.
+
+  Lemma next_logc s a d : next (logc s a d) = next s.
+  Proof. reflexivity. Qed.
+
+  Lemma not_same_fresh n a n' : below a U -> In n U -> a <= addr n' -> not_same n (RNode n') = true.
+  Proof.
+    intros Hb Hn Hle. specialize (Hb n Hn). simpl. apply negb_true_iff, Nat.eqb_neq. lia.
+  Qed.
+
+  Lemma visit_Inv k : forall n s s' r,
+    In n U -> wf_tree ct n = true -> V k n s = Some (s', r) -> Inv n (next s) (next s') r.
+  Proof.
+    induction k as [|k IH]; intros n s s' r HnU Hwf H; [discriminate|].
+    destruct (wf_tree_root n Hwf) as [Hroot Hkids].
+    assert (HG : forall s0 s1 r1, gv_tr (V k) n s0 = Some (s1, r1) -> GInv n (next s0) (next s1) r1).
+    { intros s0 s1 r1 Hg. eapply gv_Inv; eauto. intros k0 x Hk0 Hx s2 s3 r3 Hv.
+      apply IH; [eapply U_closed; [exact HnU|eapply kid_subterm; eauto]|eapply Hkids; eauto|exact Hv]. }
+    assert (Hgen : forall s1 r1, rl (cls n) = None \/ rl (cls n) = Some AGeneric ->
+                   GInv n (next s) (next s1) r1 -> Inv n (next s) (next s1) r1).
+    { intros s1 r1 Hrl (G1 & G2 & G3 & G4 & G5). unfold Inv. rewrite rewrite_eq, changed_eq. unfold generic_like.
+      split; [exact G1|]. split; [exact G2|]. split; [|split].
+      - intros Hc Hb. rewrite G3 by auto. destruct Hrl as [-> | ->]; reflexivity.
+      - intros Hb Hch. assert (Hkc : kids_changed n = true) by (destruct Hrl as [E|E]; rewrite E in Hch; exact Hch).
+        destruct r1 as [n'| |]; auto. eapply not_same_fresh; eauto. apply (G4 Hkc Hb n' eq_refl).
+      - intros Hb _ Hch n' En. assert (Hkc : kids_changed n = true) by (destruct Hrl as [E|E]; rewrite E in Hch; exact Hch).
+        apply (G4 Hkc Hb n' En). }
+    cbn [visit] in H. rewrite !(generic_visit_tr ct (V k) n _ Hroot) in H.
+    set (d := dispatch ct strict (has_method ms) (cls n)) in *.
+    assert (Hrl : rl (cls n) = match d with Some m => assoc m ms | None => None end) by reflexivity.
+    destruct d as [m|].
+    - destruct (assoc m ms) as [act|] eqn:Ea.
+      + destruct act as [| |f v|f v|t|t| |].
+        * (* AKeep *) injection H as <- <-. rewrite next_logc. unfold Inv. rewrite rewrite_eq, changed_eq. unfold generic_like. rewrite Hrl.
+          repeat split; auto; try discriminate. intros n' [= <-] y Hy. left. eapply U_closed; eauto.
+        * (* AGeneric *) apply HG in H. rewrite next_logc in H. apply Hgen; auto.
+        * (* ASetProp *)
+          pose proof (set_prop_strip (next (logc s (addr n) (Some m))) n f v) as Hsp.
+          destruct (set_prop ct (next (logc s (addr n) (Some m))) n f v) as [n1|]; injection H as <- <-.
+          -- destruct Hsp as (Hs1 & Hs2 & Hs3). cbn [bump next logc] in *.
+             unfold Inv. rewrite rewrite_eq, changed_eq. unfold generic_like. rewrite Hrl, Hs1.
+             repeat split; auto; try discriminate.
+             ++ intros n' [= <-] y Hy. destruct (subterms_same_kids _ _ _ Hs3 Hy) as [->|Hy'].
+                ** right. lia.
+                ** left. eapply U_closed; eauto.
+             ++ intros Hb _. eapply not_same_fresh; eauto. lia.
+          -- cbn [next logc]. unfold Inv. rewrite rewrite_eq, changed_eq. unfold generic_like. rewrite Hrl, Hsp.
+             repeat split; auto; try discriminate.
+        * (* AGenSetProp *)
+          destruct (gv_tr (V k) n (logc s (addr n) (Some m))) as [[s1 r1]|] eqn:Eg; [|discriminate].
+          apply HG in Eg. rewrite next_logc in Eg. destruct Eg as (G1 & G2 & G3 & G4 & G5).
+          cbn [fst snd] in H. destruct r1 as [m'| |].
+          -- pose proof (set_prop_strip (next s1) m' f v) as Hsp.
+             destruct (set_prop ct (next s1) m' f v) as [n1|]; injection H as <- <-.
+             ++ destruct Hsp as (Hs1 & Hs2 & Hs3). cbn [bump next].
+                unfold Inv. rewrite rewrite_eq, changed_eq. unfold generic_like. rewrite Hrl.
+                repeat split; auto; try discriminate.
+                ** intros n' [= <-] y Hy. destruct (subterms_same_kids _ _ _ Hs3 Hy) as [->|Hy'].
+                   --- right. lia.
+                   --- destruct (G2 m' eq_refl y Hy'); auto. right. lia.
+                ** intros Hc Hb. rewrite <- (G3 Hc Hb). simpl. rewrite Hs1. reflexivity.
+                ** intros Hb _. eapply not_same_fresh; eauto. lia.
+             ++ unfold Inv. rewrite rewrite_eq, changed_eq. unfold generic_like. rewrite Hrl.
+                repeat split; auto; try discriminate.
+                intros Hc Hb. rewrite <- (G3 Hc Hb). simpl. rewrite Hsp. reflexivity.
+          -- exfalso. apply G5. reflexivity.
+          -- injection H as <- <-. unfold Inv. rewrite rewrite_eq, changed_eq. unfold generic_like. rewrite Hrl.
+             repeat split; auto; try discriminate.
+             intros Hc Hb. rewrite <- (G3 Hc Hb). reflexivity.
+        * (* AReplaceBy *) injection H as <- <-. rewrite next_logc. unfold Inv. rewrite rewrite_eq, changed_eq. unfold generic_like. rewrite Hrl.
+          repeat split; auto; try discriminate.
+          intros n' [= <-] y Hy. left. eapply U_closed; [|exact Hy]. eapply template_in_U; eauto.
+        * (* AReplaceNew *) injection H as <- <-. cbn [bump next logc].
+          unfold Inv. rewrite rewrite_eq, changed_eq. unfold generic_like. rewrite Hrl.
+          assert (Hk : nkids (dc_replace (next s) t [] []) = nkids t) by (unfold dc_replace; cbn [nkids]; apply upd_nil).
+          repeat split; auto; try discriminate.
+          -- intros n' [= <-] y Hy. destruct (subterms_same_kids _ _ _ Hk Hy) as [->|Hy'].
+             ++ right. simpl. lia.
+             ++ left. eapply U_closed; [|exact Hy']. eapply template_in_U; eauto.
+          -- intros _ _. simpl. destruct t as [a0 c0 o0 ps0 ks0]. unfold dc_replace. cbn [cls norigin nprops nkids strip].
+             rewrite !upd_nil. reflexivity.
+          -- intros Hb _. eapply not_same_fresh; eauto.
+        * (* ARemove *) injection H as <- <-. rewrite next_logc. unfold Inv. rewrite rewrite_eq, changed_eq. unfold generic_like. rewrite Hrl.
+          repeat split; auto; try discriminate.
+        * (* ARaise *) injection H as <- <-. rewrite next_logc. unfold Inv. rewrite rewrite_eq, changed_eq. unfold generic_like. rewrite Hrl.
+          repeat split; auto; try discriminate.
+      + apply HG in H. rewrite next_logc in H. apply Hgen; auto.
+    - apply HG in H. rewrite next_logc in H. apply Hgen; auto.
   Qed.
 End Inv.
